@@ -44,7 +44,7 @@ PROPERTY_CLASSES = {
     "templates": ["logql.lineformat.", "logql.labelformat."],
     "trace tag names and values": ["tempo.", "traceql."],
     "profile selectors": ["prof."],
-    "label names in URLs": ["labels.values.label", "prof.labelvalues.name", "tempo.values.tag", "tempo.valuesv2.key"],
+    "label names in URLs": ["labels.values.label", "labels.promvalues.label", "prof.labelvalues.name", "tempo.values.tag", "tempo.valuesv2.key"],
     "match[] parameters": ["labels.values.match", "labels.series.match", "labels.promvalues.match"],
     "label/attribute names inside queries": [".ident.", "promql.name", "promql.down.name"],
 }
@@ -146,8 +146,8 @@ def load(path):
 
 def describe(c):
     d = {k: v for k, v in c.items() if not k.startswith("_")}
-    for k in ("val", "want", "sql"):
-        if d.get(k) is not None:
+    for k in ("val", "want", "sql", "pre"):
+        if d.get(k):
             d[k + "_text"] = bytes.fromhex(d[k]).decode("utf8", "backslashreplace")
     return d
 
@@ -276,7 +276,27 @@ def run_correspondence(ck, known):
             if any(ch in v for ch in b"'\\\x00\n\r\x08\t\x1a%_-/*#") or any(ch >= 0x80 for ch in v):
                 distinct.add(c["site"] + "|" + c["val"])
     run_fmt_tie(ck)
+    run_bind_tie(ck)
     ck.obligation("every site has a baseline statement", nbad_base == 0, "%d cases without baseline" % nbad_base)
+    # round 6 (seeded C10-f): statements handed to a session are recorded at the wire, behind the repository's StableSqlxDBWrapper and the
+    # REAL clickhouse-go driver (its client-side bind rewrites `$n` / `?` / `@name` inside literals once the call has an argument)
+    wire_sites, bound, rewritten, ph_wire = {}, {}, {}, {}
+    for c in by_id.values():
+        if c.get("wire"):
+            wire_sites[c["site"]] = wire_sites.get(c["site"], 0) + 1
+            if c.get("bind_args"):
+                bound[c["site"]] = bound.get(c["site"], 0) + 1
+            if c.get("pre"):
+                rewritten[c["site"]] = rewritten.get(c["site"], 0) + 1
+            if any(ph in bytes.fromhex(c["val"]) for ph in (b"$1", b"?", b"@")):
+                ph_wire[c["site"]] = ph_wire.get(c["site"], 0) + 1
+    svc = sorted(st for st in wire_sites if st.split(".")[0] in ("labels", "tempo", "prof"))
+    thin_w = sorted(st for st in wire_sites if ".ident." not in st and ph_wire.get(st, 0) < 2)
+    ck.obligation("statements handed to a database session are observed BEHIND the real clickhouse-go driver (repository's StableSqlxDBWrapper -> database/sql -> clickhouse-go HTTP -> recording endpoint): %d statements at %d positions (%d service positions); each has bind-placeholder strings ($1, ?, @name) among its values; calls with bind arguments: %d, statements the driver rewrote: %d"
+                  % (sum(wire_sites.values()), len(wire_sites), len(svc), sum(bound.values()), sum(rewritten.values())),
+                  len(wire_sites) >= 60 and len(svc) >= 30 and not thin_w, "positions observed at the wire without placeholder strings: %s" % thin_w[:8])
+    ck.extra["wire"] = {"statements_recorded_behind_the_driver_per_position": wire_sites, "calls_with_bind_arguments_per_position": bound,
+                        "statements_rewritten_by_the_driver_per_position": rewritten, "cases_with_a_bind_placeholder_per_position": ph_wire}
     # round 4: a position whose requests are all rejected (or die in the harness) is not covered at all: the three PromQL regex-matcher
     # positions were in that state (hand-built labels.Matcher without compiled expression), unnoticed
     allsites = set(sites) | set(rejs)
@@ -602,6 +622,14 @@ def run_sites(ck):
     ck.extra["sql_sites"]["constant_formats_[decomposed,compared_with_package_fmt,differ]"] = [fc.get("Sites"), fc.get("Compared"), fc.get("Differ")]
     ck.obligation("the analyser's decomposition of the constant Sprintf formats agrees with package fmt's own output over sentinel operands (%s of %s formats compared)"
                   % (fc.get("Compared"), fc.get("Sites")), fc.get("Differ") == 0 and (fc.get("Compared") or 0) >= 80, json.dumps(fc))
+    # round 6 (seeded C10-f): a statement handed to a session WITH bind arguments is interpreted once more, by the driver's client-side
+    # bind ($n / ? / @name are rewritten inside rendered literals): such a call must have a constant statement, or no argument ever
+    # reaches it (forwarded variadic parameters are followed to their suppliers); otherwise the site carries an unclassified part
+    bd = meta.get("bind") or {}
+    ck.extra["sql_sites"]["session_calls_[all,with_argument_expressions,forwarding_a_variadic_parameter,with_arguments_beside_a_rendered_statement]"] = [
+        bd.get("SessionCalls"), bd.get("WithArguments"), bd.get("Forwarding"), bd.get("Flagged")]
+    ck.obligation("the census covers the bind arguments of every session call (QueryCtx / ExecCtx / database/sql / sqlx names): %s calls, %s forward a variadic parameter that no caller supplies, %s hand arguments to the driver beside a rendered statement (then the site is unclassified)"
+                  % (bd.get("SessionCalls"), bd.get("Forwarding"), bd.get("Flagged")), (bd.get("SessionCalls") or 0) >= 15, json.dumps(bd))
     detail = ""
     if bad:
         rows = []
@@ -673,6 +701,72 @@ def run_wsites(ck):
 
 
 FMT_OPS = [b"INNER ANY", b"zq'x", b"third"]
+
+
+def run_bind_tie(ck):
+    """model/ChBind.v (clickhouse-go's client-side bind over string arguments) against the REAL driver: (text, arguments) pairs are handed
+    to the repository's StableSqlxDBWrapper over clickhouse-go (HTTP) and recorded at the endpoint (round 6)"""
+    import random
+    rnd = random.Random(int(ck.seed) + 6)
+    texts = [b"a", b" ", b"'", b"\\", b"(", b")", b"x'y", b"key == ", b"\\'", b"--", b"\n", b"\x00", b"\xc3\xa9", b"\xff", b"=", b"", b"1", b"07", b"z9"]
+    phs = [b"$1", b"$2", b"$3", b"$0", b"$01", b"$10", b"$", b"$$1", b"$1$2", b"$x", b"?", b"\\?", b"\\\\?", b"??", b"a?", b"@p1", b"@", b"{a:String}",
+           b"{", b"}", b":", b"{:}", b"{a:}", b"{ab:c\nd}", b"{a\n:b}", b"{x:y", b"$1'", b"'$1'", b"'?'", b"'x$1y'", b"$99999999999999999999"]
+    args_pool = [b"job", b" or 1 or ", b"it's", b"\\", b"\\'", b"", b"$1", b"?", b"a\nb", b"\x00", b"\xc3\xa9\xff", b"' OR 1=1 --", b"$2", b"{a:b}", b"@p1", b"''"]
+    fixed = [(b"SELECT val FROM t WHERE ((val) == ('x$1y')) and ((key) == ($1))", [b"job"]),
+             (b"SELECT val FROM t WHERE ((val) == ('x$1y')) and ((key) == ($1))", [b" or 1 or "]),
+             (b"SELECT val FROM t WHERE ((val) == ('$2')) and ((key) == ($1))", [b"job"]),
+             (b"SELECT val FROM t WHERE ((val) == ('a?b')) and ((key) == ($1))", [b"job"]),
+             (b"SELECT val FROM t WHERE key == $1", [b"it's \\ $1 ? {a:b}"]),
+             (b"SELECT 'no placeholder'", [b"unused"]), (b"SELECT 'no placeholder'", []), (b"SELECT '$1 ? {a:b}'", []),
+             (b"SELECT ?, ?", [b"a", b"b", b"c"]), (b"SELECT ?, ?", [b"a"]), (b"?", [b"a"]), (b"x\\?", [b"a"]), (b"SELECT $2, $1", [b"a", b"b"])]
+    cases = list(fixed)
+    for _ in range(int(ck.n(330, 3000))):
+        k = rnd.randint(1, 4)
+        t = b"".join(rnd.choice(texts) + (rnd.choice(phs) if rnd.random() < 0.8 else b"") for _ in range(k)) + rnd.choice(texts)
+        if not t:
+            t = b"x"
+        cases.append((t, [rnd.choice(args_pool) for _ in range(rnd.choice([0, 1, 1, 1, 2, 2, 3]))]))
+    inp = os.path.join(ck.work, "bind_in.jsonl")
+    with open(inp, "w") as fh:
+        for t, a in cases:
+            fh.write(json.dumps({"site": "chbind", "val": t.hex(), "args": [x.hex() for x in a]}) + "\n")
+    outp = os.path.join(ck.work, "bind_out.jsonl")
+    rc, out = ck.go_run("sqlinject", ["--cases", inp, "--out", outp])
+    rows = [json.loads(l) for l in open(outp)] if rc == 0 and os.path.exists(outp) else []
+    rows = [r for r in rows if r.get("kind") == "bind"]
+    if not ck.obligation("harness sqlinject sent the generated (statement text, bind arguments) pairs through the real session and driver (%d)" % len(rows),
+                         rc == 0 and len(rows) == len(cases) and all(r["sent"] <= 1 for r in rows), out[-800:]):
+        return
+    cs = vcheck.coq_string
+    body = ";\n  ".join("(%s, [%s], %s)" % (cs(bytes.fromhex(r["text"])), "; ".join(cs(bytes.fromhex(a)) for a in (r.get("args") or [])),
+                                            ("Some " + cs(bytes.fromhex(r["out"]))) if r["sent"] == 1 else "None") for r in rows)
+    txt = ("From Coq Require Import List String Ascii.\nFrom Qryn Require Import model.ChBind.\nImport ListNotations.\nOpen Scope string_scope.\n"
+           "Definition cases : list bind_case := [\n  " + body + "].\n"
+           "Definition R := Eval vm_compute in map bind_verdict cases.\nPrint R.\n")
+    rc, out = ck.coq_eval("C10_chbind", txt)
+    flat = " ".join(out.split())
+    m = re.search(r"R = \[(.*?)\]\s*: list nat", flat)
+    if rc != 0 or not m:
+        ck.obligation("model/ChBind.v evaluated on the generated pairs", False, out[-1500:])
+        return
+    verd = [int(x) for x in re.findall(r"\d+", m.group(1))]
+    bad = [(r, v) for r, v in zip(rows, verd) if v != 0]
+    refused = sum(1 for r in rows if r["sent"] == 0)
+    rewritten = sum(1 for r in rows if r["sent"] == 1 and r["out"] != r["text"])
+    ck.obligation("model/ChBind.v = clickhouse-go's client-side bind: bind_go text arguments is what reached the endpoint behind the real driver (or both refuse), on %d generated pairs (%d rewritten by the driver, %d refused, %d sent unchanged)"
+                  % (len(rows), rewritten, refused, len(rows) - rewritten - refused),
+                  not bad and len(verd) == len(rows) and rewritten >= 40 and refused >= 40,
+                  "; ".join("%r %r -> %s (model verdict %d)" % (bytes.fromhex(r["text"]), [bytes.fromhex(a) for a in r.get("args") or []],
+                                                              repr(bytes.fromhex(r["out"])) if r["sent"] else "refused: " + str(r.get("err")), v) for r, v in bad[:3]))
+    if bad:
+        r, v = bad[0]
+        ck.violation({"property": "C10", "kind": "model/ChBind.v disagrees with the driver's bind", "text": bytes.fromhex(r["text"]).decode("utf8", "backslashreplace"),
+                      "args": [bytes.fromhex(a).decode("utf8", "backslashreplace") for a in r.get("args") or []],
+                      "sent": bytes.fromhex(r["out"]).decode("utf8", "backslashreplace") if r["sent"] else None, "driver_error": r.get("err"),
+                      "broken": "correspondence model/ChBind.v vs clickhouse-go bind.go"}, no_input=True)
+    ck.extra["chbind_tie"] = {"pairs": len(rows), "rewritten_by_the_driver": rewritten, "refused_by_the_driver": refused}
+    with vcheck_lock():
+        ck.coverage["evaluations"] += len(rows)
 
 
 def run_fmt_tie(ck):
